@@ -41,6 +41,7 @@ type HarnessSpec struct {
 	Stubs     map[string]string `json:"stubs"`
 	GoSync    []string          `json:"go_sync"`
 	GoDrop    []string          `json:"go_drop"`
+	MapRotate []string          `json:"map_rotate"` // functions (regex) whose map ranges start at an arbitrary entry
 	Trace     bool              `json:"trace"`
 	FallbackMs int              `json:"fallback_ms"`
 	FmtCalls  bool              `json:"fmt_calls"`
@@ -72,6 +73,7 @@ type Config struct {
 	rules    []stubRule
 	goSync   []*regexp.Regexp
 	goDrop   []*regexp.Regexp
+	mapRot   []*regexp.Regexp
 	skipInit map[string]bool
 }
 
@@ -132,6 +134,9 @@ func compileCfg(spec *Spec, h *HarnessSpec) (*Config, error) {
 	for _, p := range append(append([]string{}, spec.GoDrop...), h.GoDrop...) {
 		c.goDrop = append(c.goDrop, regexp.MustCompile(p))
 	}
+	for _, p := range h.MapRotate {
+		c.mapRot = append(c.mapRot, regexp.MustCompile(p))
+	}
 	for _, p := range spec.SkipInit {
 		c.skipInit[p] = true
 	}
@@ -148,6 +153,15 @@ func (c *Config) stubFor(name string, fn *ssa.Function) (string, bool) {
 		}
 	}
 	return "", false
+}
+
+func (c *Config) mapRotate(name string) bool {
+	for _, r := range c.mapRot {
+		if r.MatchString(name) {
+			return true
+		}
+	}
+	return false
 }
 
 func (c *Config) goPolicy(name string) string {
@@ -297,7 +311,7 @@ func main() {
 		}
 		budget := time.Duration(h.BudgetS) * time.Second
 		if budget == 0 {
-			budget = 10 * time.Minute
+			budget = 30 * time.Minute // generous: harnesses share the worker pool and the machine may be loaded
 		}
 		hs := &hstate{spec: h, fn: fn, budget: budget}
 		hss = append(hss, hs)
